@@ -13,7 +13,7 @@ from vlib.util import V, exc_msg, exc_sig, multiset_diff, quiet, tmpdir
 
 PROPERTY = "C03"
 LEVEL = "exploration"
-DEADLINE = 300
+DEADLINE = 1500
 CHUNK = 2
 RULE = ("cases = MapSpec pipelines from vlib.mapgen (VERIF_SEED) whose sequential run matches the denotation; each is run "
         "under {map, map_async} x {ThreadPool(2-4), ProcessPool(2-3, fork), per-output executor dict with '' default, "
